@@ -300,6 +300,40 @@ def generic_checks(ctx, case, a):
         ctx.fail("print-parse", case, "Address(%r) is %r, not equal to the printed address %r" % (s, key(b), key(a)))
 
 
+def mutable_octets_check(ctx, case, a):
+    """raw octets may be handed over as a bytearray: the address must equal, hash and look up like the
+    one built from bytes, and must not change when the caller reuses its buffer"""
+    from bacpypes import pdu
+    c = case["c"]
+    inner = c.get("a") if c["k"] == "net2" else c
+    if not isinstance(inner, dict) or inner.get("k") not in ("bytes", "LSb", "RSb") or c["k"] in ("RSb",) and False:
+        return
+    buf = bytearray.fromhex(inner["x"])
+    try:
+        if c["k"] == "bytes":
+            b = pdu.Address(buf)
+        elif c["k"] == "net2":
+            b = pdu.Address(c["net"], buf)
+        elif c["k"] == "LSb":
+            b = pdu.LocalStation(buf)
+        elif c["k"] == "RSb":
+            b = pdu.RemoteStation(c["net"], buf)
+        else:
+            return
+        k0 = key(b)
+        ok = (a == b) and (b == a) and hash(a) == hash(b) and (b in {a: 1}) and (a in {b: 1})
+        if len(buf):
+            buf[0] ^= 0xFF
+        same_after = key(b) == k0 and (a == b)
+    except Exception as e:
+        ctx.fail("bytearray-octets", case, "raw octets given as a bytearray: %s: %s" % (type(e).__name__, e))
+        return
+    if not ok or k0 != key(a):
+        ctx.fail("bytearray-octets", case, "address built from a bytearray is %r, from bytes %r; ==/hash/dict disagree" % (k0, key(a)))
+    elif not same_after:
+        ctx.fail("bytearray-octets", case, "address changed when the caller modified the bytearray it was built from")
+
+
 def oracle(ctx, case, r, objs):
     op = case["op"]
     if r.get("r") == "err" and r["k"].startswith("python:"):
@@ -309,6 +343,7 @@ def oracle(ctx, case, r, objs):
         exp = case.get("exp")
         if r["r"] == "ok":
             generic_checks(ctx, case, objs[0])
+            mutable_octets_check(ctx, case, objs[0])
         if case["c"]["k"] == "str" and "@" not in case["c"]["s"] and case["c"]["s"].isascii():
             ref = ref_parse(case["c"]["s"])
             if ref is None and r["r"] == "ok":
